@@ -150,7 +150,11 @@ class TriggerHandler:
         trigger_context = TriggerContext(self._config, self._push_service, frame, event, arg)
 
         if event in ["line", "return", "exception"] and self._callbacks.is_set:
-            self.__process_call_backs(trigger_context, arg, frame, event, file, line, function)
+            try:
+                self.__process_call_backs(trigger_context, arg, frame, event, file, line, function)
+            except BaseException:
+                # a failing callback must not stop us from matching the tracepoints for this event
+                logging.exception("Cannot process callbacks at %s#%s %s", file, line, function)
 
         # return if we do not have any tracepoints
         if len(self._tp_config) == 0:
@@ -192,18 +196,20 @@ class TriggerHandler:
                              function_name: str):
         # remove top context
         context: CallbackContext = self._callbacks.value.pop()
-        # if it is for our location process it
-        if context.at_location(event, file, line, function_name, frame):
-            logging.debug("At callback location %s", context.name)
-            context.process(ctx, event, frame, arg)
-        else:
-            logging.debug("Not at callback location %s", context.name)
-            # else put the context back on the queue
-            self._callbacks.value.append(context)
-
-        if len(self._callbacks.value) == 0:
-            logging.debug("Callbacks cleared.")
-            self._callbacks.clear()
+        try:
+            # if it is for our location process it
+            if context.at_location(event, file, line, function_name, frame):
+                logging.debug("At callback location %s", context.name)
+                context.process(ctx, event, frame, arg)
+            else:
+                logging.debug("Not at callback location %s", context.name)
+                # else put the context back on the queue
+                self._callbacks.value.append(context)
+        finally:
+            # also when a callback fails: an empty queue that is still set would fail every later event of this thread
+            if len(self._callbacks.value) == 0:
+                logging.debug("Callbacks cleared.")
+                self._callbacks.clear()
 
     @staticmethod
     def location_from_event(event: str, frame: FrameType) -> Tuple[str, str, int, Optional[str]]:
